@@ -40,6 +40,12 @@ def _zm(name):
         z = copy.copy(zoo.by_name(name[:-4]))
         z.name = name
         return z
+    if name.endswith("_std0"):
+        # the same model with the std of its first transition shock set to zero: an exactly identified plan does not depend on stds
+        import copy
+        z = copy.copy(zoo.by_name(name[:-5]))
+        z.name = name
+        return z
     return LOGLIN if name == "loglin" else zoo.by_name(name)
 
 
@@ -51,6 +57,8 @@ def _build(ir, zm):
         m.steady()
         m.solve()
         return m
+    if zm.name.endswith("_std0"):
+        return fo.build_model(ir, zm, **{"std_" + zm.tshocks[0]: 0.0})
     if zm.name == "loglin":
         import contextlib, io
         with contextlib.redirect_stdout(io.StringIO()):
@@ -443,11 +451,12 @@ def main(run):
                     "method='stacked_time' plans (see C06)", "singular or over/under-identified plans", "time-varying stds"]
     models = [_zm(n) for n in (("nk3", "ar2m", "pc_const", "loglin") if run.tier == "thorough" else ("nk3", "ar2m", "loglin"))]
     models.append(_zm("ar2m_det"))
+    models.append(_zm("ar2m_std0"))
     nsim = 4
     for zm in models:
         m = _build(ir, zm)
         plans = _plans(zm, run.tier)
-        if zm.name.endswith("_det"):
+        if zm.name.endswith(("_det", "_std0")):
             plans = plans[:3] if run.tier == "quick" else plans
         for idx, spec in enumerate(plans):
             for fn in (check_plan, check_swap):
